@@ -26,6 +26,7 @@ func newEvictionState[Type EvictionStateSlotType]() *evictionState[Type] {
 }
 
 func (e *evictionState[Type]) LastEvictedSlot() Type {
+	verifYield("evictionstate-lock")
 	e.mutex.RLock()
 	defer e.mutex.RUnlock()
 
@@ -38,6 +39,7 @@ func (e *evictionState[Type]) LastEvictedSlot() Type {
 
 // EvictionEvent returns the event that is triggered when the given slot was evicted.
 func (e *evictionState[Type]) EvictionEvent(slot Type) Event {
+	verifYield("evictionstate-lock")
 	e.mutex.RLock()
 	defer e.mutex.RUnlock()
 
@@ -57,6 +59,7 @@ func (e *evictionState[Type]) Evict(slot Type) {
 
 // evict advances the lastEvictedSlot to the given slot and returns the events that shall be triggered.
 func (e *evictionState[Type]) evict(slot Type) []Event {
+	verifYield("evictionstate-lock")
 	e.mutex.Lock()
 	defer e.mutex.Unlock()
 
